@@ -137,6 +137,8 @@ def gen_history(rnd: random.Random, flavor: dict) -> dict:
             if style == "shuffled":
                 rnd.shuffle(remap)
             plabels = [remap[x] if x >= 0 else x for x in plabels]
+        if cons_kind and flavor.get("gc_fixatoms_always"):
+            cons_kind = "fixatoms"  # the only constraint ASE keeps through deletions
         if cons_kind and nfw and "fixatoms" in cons_kind:
             atoms["constraints"] = [{"type": "FixAtoms", "indices": list(range(p0 * k, n))}]
         elif cons_kind and n and "fixatoms" in cons_kind:
@@ -559,10 +561,17 @@ class HistoryCampaign(Campaign):
         return [self.monitor_cls()]
 
     def execute(self, sc):
-        w, failed = self.build_world(sc, self.make_monitors(sc))
+        disk = None
+        if sc.get("files"):
+            from simkit.simfs import SimDisk
+
+            disk = SimDisk()
+        w, failed = self.build_world(sc, self.make_monitors(sc), disk)
         if failed is not None:
             return failed
         res = w.run()
+        if disk is not None:
+            w.mc.close()
         return res.pack()
 
     def build_world(self, sc, mons, disk=None):
